@@ -4,7 +4,7 @@
 Require Extraction.
 Require Import ExtrOcamlBasic.
 From LsmV Require Import Base.Bytes Model.Entry Model.Tree Model.Stream Model.History Model.Cert Model.Marks Model.Range Model.Prefix Model.Version Model.Bounds Model.Fifo.
-From LsmV Require Model.DataBlock Model.Bloom Model.VersionCodec Model.Ints Model.BlockIndex.
+From LsmV Require Model.DataBlock Model.Bloom Model.VersionCodec Model.Ints Model.BlockIndex Model.Leveled.
 
 Extraction Language OCaml.
 
@@ -24,4 +24,5 @@ Extraction "../ocaml/model.ml"
   LsmV.Model.VersionCodec.decode_tables_section LsmV.Model.VersionCodec.decode_blob_files_section LsmV.Model.VersionCodec.decode_gc_section LsmV.Model.VersionCodec.encode_tables_section
   LsmV.Model.BlockIndex.btable_check LsmV.Model.BlockIndex.btable_get LsmV.Model.BlockIndex.mkBT LsmV.Model.BlockIndex.mkBH LsmV.Model.BlockIndex.index_of
 
+  LsmV.Model.Leveled.leveled_choices
   N.add N.mul N.sub N.eqb N.ltb N.leb N.of_nat N.to_nat.
